@@ -48,6 +48,9 @@ Tagged(p, o, e, pc, oc) ==
   \cup (IF p.lost # o.lost THEN {IF e.a = "Timeout" THEN "C11.disconnect_on_timeout"
                                  ELSE IF e.a = "Close" \/ h.afterClose THEN "C20.all_closed" ELSE "C08.prune"} ELSE {})
   \cup (IF p.closeFired # o.closeFired THEN {"C20.close_fires_last"} ELSE {})
+  \* with disconnect-on-timeout, what is (re-)written to the brokers when request timers fire is C11's business
+  \cup (IF DisconnectOnTimeout /\ e.a = "Timeout" /\ (Routed(p.wire) # Routed(o.wire) \/ Unaware(p.wire) # Unaware(o.wire))
+           THEN {"C11.resend_after_disconnect"} ELSE {})
 
 Clauses ==
     << <<"C07.order_account_inv", C07_order_account>>, <<"C07.once", OpsOnce>> >>
